@@ -315,13 +315,13 @@ def declare_factory(w):
     # publication order (other threads wake on the event / the endmarker before _local_close returns):
     #  - when the endmarker is queued, a remote error has already been recorded (a woken receive() must raise it, not EOFError: C07)
     #  - when _receiveclosed is set, the channel already shows its final state (a woken waitclose() caller sees isclosed() and a refusing send(): C03)
-    def lc_at_put(a, h0, call, hnow):
+    def lc_at_put(a, h0, call, hnow, loc=None):
         ch = chan_of(h0, a.self, a.id)
         return [("remote-error-recorded-before-the-endmarker-is-queued",
                  z3.Implies(z3.And(registered(h0, a.self, a.id), call.self == C(h0, ch, "_items"), call.item == ENDM, a.remoteerror != 0),
                             slen(C(hnow, ch, "_remoteerrors")) == slen(C(h0, ch, "_remoteerrors")) + 1))]
 
-    def lc_at_set(a, h0, call, hnow):
+    def lc_at_set(a, h0, call, hnow, loc=None):
         ch = chan_of(h0, a.self, a.id)
         return [("final-state-visible-before-waiters-are-woken",
                  z3.Implies(z3.And(registered(h0, a.self, a.id), call.self == C(h0, ch, "_receiveclosed")),
@@ -434,6 +434,9 @@ def declare_channel(w):
                                post=lambda a, h, h2, e: [chans(h2, a.self).v[0] == chans(h, a.self).v[0], chans(h2, a.self).v[1][0] == chans(h, a.self).v[1][0],
                                                          F(h2, a.self, "count") == F(h, a.self, "count")])],
                    props=["C18", "C04", "C02"], allocates=True))
+    # new() decides on `finished` and allocates from `count`: both reads belong inside the _writelock section that registers the channel
+    # (otherwise a connection loss / a second allocator slips in between the check and the registration)
+    w.contracts[f"{GB}:ChannelFactory.new"].reads_under = {("ChannelFactory", "finished"): "_writelock", ("ChannelFactory", "count"): "_writelock"}
 
     # ---- _local_receive ---------------------------------------------------------------------------------------------------
     def lr_post(a, h, h2, r):
@@ -490,6 +493,11 @@ def declare_channel(w):
                        props=["C02", "C07", "C10"]))
     c.ghost_init = GH(lambda a, h: gw_of(h, a.self))
     c.held_on_entry = lambda a, h: [G(h, gw_of(h, a.self), "_receivelock")]     # called by the receiver thread inside `with self._receivelock`
+    # publication order: when the failing side marks the channel closed (local threads then see the failure and act on it), the CHANNEL_CLOSE_ERROR
+    # frame for the peer is already on the wire - whatever those threads send next must not overtake the error
+    c.at_call = {f"{GB}:ChannelFactory._local_close": lambda a, h0, call, hnow, loc=None: [
+        ("error-frame-on-the-wire-before-the-channel-is-closed-locally",
+         z3.Implies(call.remoteerror != 0, slen(wire(hnow, gw_of(h0, a.self))) == slen(wire(h0, gw_of(h0, a.self))) + 1))]}
     c.requires = (lambda old: lambda a, h: old(a, h) + [("receivelock-held", h.holds(G(h, gw_of(h, a.self), "_receivelock")))])(c.requires)
     w.attr_hooks[("BaseGateway", "_geterrortext")] = lambda ex, st, recv: SV(FUNCT, ExternD("geterrortext"))
     w.externals["geterrortext"] = lambda ex, args, kwargs, st, sink, node: iter([(st, core.fresh(STR, "errortext"))])
@@ -670,7 +678,7 @@ def declare_channel_api(w):
                        props=["C03", "C06", "C18", "C07"]))
     c.ghost_init = GH(lambda a, h: C(h, a.self, "gateway"))
     # close(): the channel is marked closed and the close frame is on the wire before anybody waiting on the channel is woken
-    c.at_call = {"model:Event.set": lambda a, h0, call, hnow: [("closed-before-waiters-are-woken", z3.Implies(call.self == C(h0, a.self, "_receiveclosed"), C(hnow, a.self, "_closed")))]}
+    c.at_call = {"model:Event.set": lambda a, h0, call, hnow, loc=None: [("closed-before-waiters-are-woken", z3.Implies(call.self == C(h0, a.self, "_receiveclosed"), C(hnow, a.self, "_closed")))]}
     return w
 
 
